@@ -8,6 +8,9 @@ Bounded-exhaustive exploration with an exception-type oracle (the only model nee
   generated      the C07 custom-pattern set (<= k fields, every width, five delimiter styles, embedded patterns)
   builtin        every built-in pattern and every standard single-letter pattern (several cultures)
   templates      era / calendar / year-of-era patterns under every template calendar (with_calendar)
+  metachar       patterns whose literals are format-string metacharacters ({ } {0} %s \\ $1 ..., quoted / escaped / bare):
+                 the texts that match them carry those characters into every failure message; every failure's error is
+                 requested in full
   ill-formed     embedded ld<>/lt<>/l<> patterns combined with an individual field of the same kind before / after the
                  embedding, embedded twice, every pair of width variants of one field: creation must raise
                  InvalidPatternError, or - if accepted - parsing of the formatted grid and of every re-splicing of its
@@ -73,6 +76,8 @@ def show(text, n=80):
 
 
 def py_parse(kind, ptext, cname, text, config=""):
+    if cname.startswith("syn:"):
+        return None          # customised clone: see c07.SYNTHETIC_CULTURES; the replay file carries the case
     cls = KCLS[kind].__name__
     cul = "CultureInfo.invariant_culture" if cname == "" else "CultureInfo(%r)" % cname
     return ("from pyoda_time import CalendarSystem\nfrom pyoda_time._compatibility._culture_info import CultureInfo\n"
@@ -278,13 +283,27 @@ def create_worker(task):
     return acc
 
 
+def synthetic_for(pat):
+    """The customised cultures (c07.SYNTHETIC_CULTURES) whose special feature a pattern can depend on."""
+    out = []
+    if "ampm" in pat.names:
+        out += ["syn:no-ampm", "syn:am-only", "syn:pm-only", "syn:same-ampm", "syn:prefix-ampm", "syn:foo-ampm"]
+    if 1 in T.relevant_class_components(pat.text, pat.names):
+        out += ["syn:timesep-dot", "syn:timesep-long"]
+    if "mtext" in pat.names:
+        out.append("syn:month-prefix")
+    if "dow" in pat.names:
+        out.append("syn:day-prefix")
+    return tuple(out)
+
+
 def generated_worker(task):
     kind, tier, lo, hi, cnames = task
     acc = Acc()
     pats = c07.pattern_list(kind, tier)[lo:hi]
     for pat in pats:
         sens = bool(T.relevant_class_components(pat.text, pat.names))
-        for cname in (cnames if sens else cnames[:1]):
+        for cname in ((cnames + synthetic_for(pat)) if sens else cnames[:1]):
             p = try_create(acc, kind, pat.text, cname)
             if p is None:
                 continue
@@ -575,6 +594,25 @@ def illformed_worker(task):
 
 
 # ---------------------------------------------------------------------------------------------------------------
+# literals made of format-string metacharacters
+# ---------------------------------------------------------------------------------------------------------------
+
+def metachar_worker(task):
+    kind, lo, hi = task
+    acc = Acc()
+    pats = list(G.metachar_patterns(kind))[lo:hi]
+    for pat in pats:
+        p = try_create(acc, kind, pat.text, "")
+        if p is None:
+            continue
+        values = probe_values(kind, False)
+        info = {"kind": kind, "pattern": pat.text, "culture": ""}
+        # every failure's error is requested in full (exception, value, get_value_or_throw, try_get_value)
+        probe_pattern(acc, kind, p, info, values, 1, deep=10**9)
+    return acc
+
+
+# ---------------------------------------------------------------------------------------------------------------
 # driver
 # ---------------------------------------------------------------------------------------------------------------
 
@@ -627,6 +665,14 @@ def run(ctx):
             ctx.merge_part("extreme-templates", acc)
         ctx.cap("extreme templates: generated patterns with the quoted delimiter / fixed / composite shapes only; non-ISO calendar templates for LocalDate patterns%s" % (
             " and LocalDateTime (Hebrew Civil, Coptic)" if tier == "thorough" else ""))
+    if not only or "metachar" in only:
+        tasks = []
+        for kind in kinds:
+            n = sum(1 for _ in G.metachar_patterns(kind))
+            for lo in range(0, n, 60):
+                tasks.append((kind, lo, min(n, lo + 60)))
+        for acc in pmap(metachar_worker, rot(sorted(tasks, key=lambda t: (t[1], t[0])))):
+            ctx.merge_part("metachar", acc)
     if not only or "ill-formed" in only:
         tasks = []
         for kind in kinds:
